@@ -4,6 +4,21 @@ import jax.numpy as jnp
 from fdtdx.core.misc import PaddingConfig, advanced_padding
 
 
+def _iterate_to_fixpoint(step_fn, arr: jax.Array) -> jax.Array:
+    """Applies the monotone dilation step until the array does not change any more (flood fill)."""
+
+    def _cond(state):
+        return state[1]
+
+    def _body(state):
+        cur, _ = state
+        new = step_fn(cur)
+        return new, jnp.any(new != cur)
+
+    result, _ = jax.lax.while_loop(_cond, _body, (arr, jnp.asarray(True)))
+    return result
+
+
 def remove_floating_polymer(
     matrix: jax.Array,  # 1 is polymer, zero is air, shape (x, y, z)
 ) -> jax.Array:
@@ -121,7 +136,6 @@ def compute_air_connection(matrix: jax.Array) -> jax.Array:
         jax.Array: Boolean array marking air regions connected to boundaries.
     """
     inv_matrix = jnp.invert(matrix)
-    n = max([matrix.shape[0], matrix.shape[1], matrix.shape[2]])
     n4_kernel = jnp.asarray(
         [
             [0, 1, 0],
@@ -138,7 +152,7 @@ def compute_air_connection(matrix: jax.Array) -> jax.Array:
     connected = connected.at[:, -1, :].set(True)
     connected = connected & inv_matrix
 
-    def _body_fn(_, arr):
+    def _step_fn(arr):
         arr = seperated_3d_dilation(
             arr_3d=arr,
             kernel_xy=n4_kernel,
@@ -148,7 +162,8 @@ def compute_air_connection(matrix: jax.Array) -> jax.Array:
         )
         return arr
 
-    connected = jax.lax.fori_loop(0, n, _body_fn, connected)
+    # a fixed number of sweeps is not enough for long winding paths, iterate until nothing changes
+    connected = _iterate_to_fixpoint(_step_fn, connected)
 
     return connected
 
@@ -172,11 +187,6 @@ def compute_polymer_connection(
     Returns:
         jax.Array: Boolean array marking connected polymer regions.
     """
-    n = max([matrix.shape[0], matrix.shape[1], matrix.shape[2]])
-    padded = False
-    if matrix.shape[2] == 1:
-        padded = True
-        matrix = jnp.pad(matrix, pad_width=((0, 0), (0, 0), (1, 1)))
     n4_kernel = jnp.asarray(
         [
             [0, 1, 0],
@@ -191,7 +201,7 @@ def compute_polymer_connection(
     else:
         connected = connected.at[connected_slice].set(True)
 
-    def _body_fn(_, arr):
+    def _step_fn(arr):
         arr = seperated_3d_dilation(
             arr_3d=arr,
             kernel_xy=n4_kernel,
@@ -201,10 +211,9 @@ def compute_polymer_connection(
         )
         return arr
 
-    connected = jax.lax.fori_loop(0, n, _body_fn, connected)
+    # a fixed number of sweeps is not enough for long winding paths, iterate until nothing changes
+    connected = _iterate_to_fixpoint(_step_fn, connected)
 
-    if padded:
-        connected = connected[..., 1:2]
     return connected
 
 
@@ -229,8 +238,6 @@ def connect_slice(
     Returns:
         tuple[jax.Array, jax.Array]: Tuple of (modified_middle_slice, modified_upper_slice) with connected regions.
     """
-    n = max(lower_slice.shape[0], lower_slice.shape[1])
-
     # define kernels
     n4_kernel = jnp.asarray(
         [
@@ -262,9 +269,7 @@ def connect_slice(
     connected_points = upper_slice & middle_slice
     connected_points = connected_points | upper_save_points
 
-    for _ in range(n):
-        connected_points = dilate_jax(connected_points, n4_kernel)
-        connected_points = connected_points & upper_slice
+    connected_points = _iterate_to_fixpoint(lambda arr: dilate_jax(arr, n4_kernel) & upper_slice, connected_points)
     upper_air = jnp.invert(upper_slice)
     non_connected_points = jnp.invert(upper_air | connected_points)
 
@@ -275,9 +280,7 @@ def connect_slice(
     # update matrix, non-connected and connected points
     middle_slice = middle_slice | connectable_by_lower
     connected_points = connected_points | connectable_by_lower
-    for _ in range(n):
-        connected_points = dilate_jax(connected_points, n4_kernel)
-        connected_points = connected_points & upper_slice
+    connected_points = _iterate_to_fixpoint(lambda arr: dilate_jax(arr, n4_kernel) & upper_slice, connected_points)
     non_connected_points = jnp.invert(upper_air | connected_points)
 
     # then try to connect by adding polymer in upper array
@@ -288,9 +291,7 @@ def connect_slice(
     valid_connection_points = jnp.sum(valid_connection_points, axis=0).astype(bool)
     # update matrix, non-connected and connected points
     upper_slice = upper_slice | valid_connection_points
-    for _ in range(n):
-        connected_points = dilate_jax(connected_points, n4_kernel)
-        connected_points = connected_points & upper_slice
+    connected_points = _iterate_to_fixpoint(lambda arr: dilate_jax(arr, n4_kernel) & upper_slice, connected_points)
     non_connected_points = jnp.invert(upper_air | connected_points)
 
     # delete all non-connected
